@@ -81,7 +81,8 @@ def _history_cases(tier: str):
         ("etac_lambda_lambdabar", "helicity", ["plain", "axis,plain"]),  # amplitudes without transitions (zero-filled)
         ("jpsi_gamma_pi0_pi0", "helicity", ["@plain", "@stable,scalar,plain", "@axis+stable,couplings,plain"]),  # one builder, settings changed between calls
         ("jpsi_pi0_pip_pim", "canonical-helicity", ["@stable", "@scalar,plain,axis,stable"]),
-        ("jpsi_sigmabar_sigma", "helicity", ["@parent_hel", "@plain,parent_hel", "@no_child_hel,plain,parent_hel"]),  # naming flags decide which chains share a coefficient
+        ("jpsi_sigmabar_sigma", "helicity", ["@parent_hel", "@plain,parent_hel", "@no_child_hel,plain,parent_hel"]),
+        ("jpsi_gamma_pi0_pi0", "canonical-helicity", ["@stable", "@fail,stable", "@plain,fail,fail,stable"]),  # a formulate() that RAISES (bad configuration), then a good one  # naming flags decide which chains share a coefficient
         ("jpsi_pi0_pip_pim", "helicity", ["axis", "plain,axis"]),  # three topologies, final-state id 0: names m_01 / m_1 tie under natural sorting
     ]
     if tier == "thorough":
@@ -215,7 +216,12 @@ def build(chk: Check) -> None:
     ex = Executor("reset")
     self_rec = Rec("_HelicityModelIngredients", {k: {"old": 1} for k in ("parameter_defaults", "amplitudes", "components", "kinematic_variables")})
     olds = {k: v for k, v in self_rec.attrs.items()}
+    if not hasattr(_HelicityModelIngredients, "reset"):
+        chk.struct("reset.exists", False, "ampform.helicity._HelicityModelIngredients.reset", lemma=True, replay=purity_replay,
+                   witness="formulate() starts from fresh ingredient dictionaries through this method; without it the start state of a call is whatever the previous call left")
     try:
+        if not hasattr(_HelicityModelIngredients, "reset"):
+            raise Unsupported("no reset() method")
         outs = ex.run(_HelicityModelIngredients.reset, [self_rec])
         ok = len(outs) == 1 and outs[0].kind == "return"
         fresh = ok and all(isinstance(self_rec.attrs[k], dict) and not self_rec.attrs[k] and self_rec.attrs[k] is not olds[k] for k in olds)
@@ -252,12 +258,20 @@ def build(chk: Check) -> None:
     chk.struct("ownership.formulate_mutates_a_call_result", any(r["caller"].endswith("HelicityAmplitudeBuilder.formulate") and r["callee"] == "create_expressions" for r in own), F,
                witness=[r["caller"] for r in own][:5], lemma=True, replay=purity_replay,
                note="anchor of the analysis: formulate() deletes from / adds to the mapping it gets from the kinematics adapter")
+    # one obligation per CALLEE whose result some caller mutates in place (named by the callee only: callers and locals get renamed and
+    # split by refactorings); results copied at the call site (dict(...), list(...)) need nothing from the callee
+    by_callee: dict[str, list] = {}
     for r in own:
-        if not r["callees"] and not r["wrapped_fresh"]:
+        if r["wrapped_fresh"]:
+            continue
+        if not r["callees"]:
             chk.assume(f"external callee returns a fresh container: {r['callee']}() used in {r['caller']} (dependency, not under contract)")
             continue
-        chk.struct(f"ownership.mutated_call_result_is_fresh[{r['caller']}:{r['local']}<-{r['callee']}]", r["fresh"], r["callees"][0] if r["callees"] else r["caller"],
-                   witness=r["why"], lemma=True, replay=purity_replay)
+        for c in r["callees"]:
+            by_callee.setdefault(c, []).append(r)
+    for callee, rs in sorted(by_callee.items()):
+        chk.struct(f"ownership.mutated_call_result_is_fresh[{callee}]", all(r["fresh"] for r in rs), callee,
+                   witness={"mutated_in": sorted({r["caller"] for r in rs}), "why": rs[0]["why"]}, lemma=True, replay=purity_replay)
 
     # ---- E4: containers a builder keeps in its own attributes and fills in its methods (memo tables that outlive formulate()) ----
     memo = frames.analyse_instance_containers(funcs, ("HelicityAmplitudeBuilder", "CanonicalAmplitudeBuilder", "HelicityAdapter", "_HelicityModelIngredients"))
